@@ -87,6 +87,56 @@ func c09(c *core.Ctx) {
 				return true
 			})
 			c.Check(ok, name+":emit-iff-deadline", w.call.Pos(), "header store dominated by the ok edge of ctx.Deadline()", "timeout header can be stored without ctx.Deadline() having reported ok (the transport would add a deadline of its own)")
+			// the transport's value wins over whatever the caller's metadata carries under that key: it is stored
+			// with Set (replace) after the metadata went in, or whatever writes the caller's entries into the same
+			// header map afterwards only appends (the server reads the first value)
+			{
+				hdr := w.call.Call.Args[0]
+				isSet := core.InfoOf(&w.call.Call).Name == "Set"
+				var later *ssa.Call
+				core.Instrs(w.fn, func(in ssa.Instruction) {
+					call, isCall := in.(*ssa.Call)
+					if !isCall || call == w.call || later != nil || !core.Reachable(core.After(w.call), call) {
+						return
+					}
+					st := core.InfoOf(&call.Call).Static
+					if st == nil || !strings.HasPrefix(core.InfoOf(&call.Call).Pkg, core.ModulePath) {
+						return
+					}
+					for ai, a := range call.Call.Args {
+						if core.TypeStr(a.Type()) != "net/http.Header" || !sameOrigins(a, hdr) || ai >= len(st.Params) {
+							continue
+						}
+						// does the callee replace entries of that parameter?
+						replaces := false
+						core.Instrs(st, func(x ssa.Instruction) {
+							switch y := x.(type) {
+							case *ssa.MapUpdate:
+								if core.OriginIs(y.Map, func(o ssa.Value) bool { return o == ssa.Value(st.Params[ai]) }) {
+									replaces = true
+								}
+							case *ssa.Call:
+								ci := core.InfoOf(&y.Call)
+								if ci.Is("net/http.Header.Set") && core.OriginIs(y.Call.Args[0], func(o ssa.Value) bool { return o == ssa.Value(st.Params[ai]) }) {
+									if _, isConst := core.ConstString(y.Call.Args[1]); !isConst {
+										replaces = true
+									}
+								}
+							}
+						})
+						if replaces {
+							later = call
+						}
+					}
+				})
+				_ = isSet
+				c.Check(later == nil, name+":transport-timeout-wins", w.call.Pos(), "no writer that replaces entries of the header map runs after the timeout store", "after the timeout header is stored, "+func() string {
+					if later != nil {
+						return core.InfoOf(&later.Call).Full()
+					}
+					return "a later writer"
+				}()+" writes the caller's metadata into the same header map by assignment: a metadata entry named grpc-timeout replaces the transport's value and the handler gets a deadline the caller's context does not have")
+			}
 			if ok && dl != nil {
 				// the context queried must be the function's context parameter, and each caller must
 				// pass the context it binds to the request
@@ -778,3 +828,4 @@ func globalConstMap(p *core.Prog, m ssa.Value) map[int64]int64 {
 	}
 	return out
 }
+
